@@ -455,4 +455,138 @@ def indexOk (s : LSet) : Bool :=
 
 def invOk (s : LSet) : Bool := allBelow s && linksOk s && tombOk s && indexOk s
 
+/-! ### `traversal.RecursiveGraphIterator` (traversal.py:63-118): a stack of list cursors
+
+The nested generators (`_recursive_node_iter` of a graph, `_iterate_subgraphs` of a node, the
+`RecursiveGraphIterator` of a subgraph, ...) are modelled as an explicit stack of frames, one per
+graph currently being iterated.  A world is a family of node containers (graph id = position in
+`sets`) plus, per node, its graph-valued attributes in dict order; attributes are read when the
+generator resumes after yielding the node.  Callbacks (`enter_graph`, `exit_graph`, the
+`recursive` predicate) appear as events in the output stream, in call order. -/
+
+/-- a graph-valued attribute of a node: `GRAPH` or `GRAPHS` -/
+inductive Attr
+  | graph (g : Nat)
+  | graphs (gs : List Nat)
+deriving Repr
+
+structure RWorld where
+  sets : List LSet
+  attrs : List (Nat × List Attr)
+  /-- `recursive=None` (`none`) or a predicate, given by the nodes on which it returns False -/
+  recf : Option (List Nat)
+deriving Repr
+
+def RWorld.setOf (w : RWorld) (g : Nat) : LSet := w.sets.getD g empty
+def RWorld.attrsOf (w : RWorld) (v : Nat) : List Attr := (w.attrs.lookup v).getD []
+
+/-- the subgraphs `_iterate_subgraphs(node)` enters, in order (lines 81-109: attributes in dict
+    order; a `GRAPHS` list reversed when iterating in reverse) -/
+def RWorld.visit (w : RWorld) (d : Dir) (v : Nat) : List Nat :=
+  (w.attrsOf v).flatMap fun a =>
+    match a with
+    | .graph h => [h]
+    | .graphs hs => if d = .rev then hs.reverse else hs
+
+/-- line 73: `self._recursive is None or self._recursive(node)` -/
+def RWorld.recurse (w : RWorld) (v : Nat) : Bool :=
+  match w.recf with
+  | none => true
+  | some l => !l.contains v
+
+/-- what the iterator does that is visible outside: yields and callback calls -/
+inductive Out
+  | yield (g v : Nat)
+  | enter (g : Nat)
+  | exit (g : Nat)
+  | pred (v : Nat)
+deriving Repr, DecidableEq
+
+/-- `_recursive_node_iter(g)` suspended in its `for node in iterable` loop (`c` = the container
+    generator; `notStarted` = the body has not run yet), possibly delegating to
+    `_iterate_subgraphs(last node)`: `last` = node just yielded whose attributes have not been
+    read yet, `pending` = subgraphs still to enter. -/
+structure RFrame where
+  g : Nat
+  c : Cursor
+  last : Option Nat
+  pending : List Nat
+deriving Repr
+
+def RFrame.fresh (g : Nat) : RFrame := ⟨g, .notStarted, none, []⟩
+
+/-- `RecursiveGraphIterator(g)` before its first `next()` -/
+def recStart (g : Nat) : List RFrame := [RFrame.fresh g]
+
+/-- One step of the generator stack.  `some r` = the pending `next()` call returns with `r`
+    (a yield, StopIteration, or an error of the container generator); `none` = keep running. -/
+def recStep (w : RWorld) (d : Dir) : List RFrame → List RFrame × List Out × Option Res
+  | [] => ([], [], some .stop)
+  | fr :: rest =>
+    match fr.last with
+    | some v =>
+      -- resumed after `yield node` (lines 73-75): predicate, then the attributes are read
+      let evs := if w.recf.isSome then [Out.pred v] else []
+      ({ fr with last := none, pending := if w.recurse v then w.visit d v else [] } :: rest, evs, none)
+    | none =>
+      match fr.pending with
+      | h :: ps =>
+        -- `_iterate_subgraphs`: enter callback (lines 85/99), then `yield from RecursiveGraphIterator(h)`
+        (RFrame.fresh h :: { fr with pending := ps } :: rest, [Out.enter h], none)
+      | [] =>
+        -- the `for node in iterable` loop (line 71); the first resume calls enter_graph (line 68)
+        let evs := if fr.c = .notStarted then [Out.enter fr.g] else []
+        match iterNext (w.setOf fr.g) d fr.c with
+        | (c', .yield v) => ({ fr with c := c', last := some v } :: rest, evs ++ [Out.yield fr.g v], some (.yield v))
+        | (_, .stop) =>
+          -- loop over: exit_graph (line 78); back in the parent's `_iterate_subgraphs`: exit (95/109)
+          (rest, evs ++ [Out.exit fr.g] ++ (if rest.isEmpty then [] else [Out.exit fr.g]), none)
+        | (c', r) => ({ fr with c := c' } :: rest, evs, some r)
+
+/-- one `next()` on the recursive iterator: run until it returns -/
+def recNext (w : RWorld) (d : Dir) : Nat → List RFrame → List RFrame × List Out × Res
+  | 0, st => (st, [], .fuel)
+  | f + 1, st =>
+    match recStep w d st with
+    | (st', o, some r) => (st', o, r)
+    | (st', o, none) => let r := recNext w d f st'; (r.1, o ++ r.2.1, r.2.2)
+
+/-- run the recursive iterator to exhaustion: everything it yields and calls, and how it ends -/
+def recDrain (w : RWorld) (d : Dir) : Nat → List RFrame → List Out × Res
+  | 0, _ => ([], .fuel)
+  | f + 1, st =>
+    match recStep w d st with
+    | (st', o, none) => let r := recDrain w d f st'; (o ++ r.1, r.2)
+    | (st', o, some (.yield _)) => let r := recDrain w d f st'; (o ++ r.1, r.2)
+    | (_, o, some r) => (o, r)
+
+/-- edit the node container of graph `g` -/
+def RWorld.applyAt (w : RWorld) (g : Nat) (op : Op) : RWorld × Bool :=
+  let r := apply (w.setOf g) op
+  ({ w with sets := w.sets.set g r.1 }, r.2)
+
+/-! #### the pre-order specification -/
+
+/-- nodes of graph `g` in the order a fresh generator yields them -/
+def RWorld.nodesOf (w : RWorld) (d : Dir) (g : Nat) : List Nat := rest (w.setOf g) d .notStarted
+
+/-- after `yield node`: predicate call, then the node's subgraphs (each visited by `V`) -/
+def specAfter (V : Nat → List Out) (w : RWorld) (d : Dir) (v : Nat) : List Out :=
+  (if w.recf.isSome then [Out.pred v] else []) ++ (if w.recurse v then (w.visit d v).flatMap V else [])
+
+/-- the rest of `_recursive_node_iter(g)`'s loop over `nodes`, then its `exit_graph(g)` -/
+def specLoop (V : Nat → List Out) (w : RWorld) (d : Dir) (g : Nat) (nodes : List Nat) : List Out :=
+  nodes.flatMap (fun v => Out.yield g v :: specAfter V w d v) ++ [Out.exit g]
+
+/-- everything one visit of subgraph `h` from `_iterate_subgraphs` produces, for nesting depth
+    `< k`: enter (caller), enter (callee), the nodes in order each followed by its subgraphs,
+    exit (callee), exit (caller) -/
+def specVisit (w : RWorld) (d : Dir) : Nat → Nat → List Out
+  | 0, _ => []
+  | k + 1, h => [Out.enter h, Out.enter h] ++ specLoop (specVisit w d k) w d h (w.nodesOf d h) ++ [Out.exit h]
+
+/-- the whole run of `RecursiveGraphIterator(g)` -/
+def specTop (w : RWorld) (d : Dir) (k : Nat) (g : Nat) : List Out :=
+  Out.enter g :: specLoop (specVisit w d k) w d g (w.nodesOf d g)
+
 end IrVerif.LinkedSet
